@@ -1230,22 +1230,49 @@ fn oversized_case(prop: &str, idx: u64, tmproot: &Path) -> CaseRec {
     }
 }
 
+/// the skip code 0 in single-script execution: the script that runs to its end exits with 0 itself
+fn script_skip_code_zero_case(prop: &str, tmproot: &Path) -> CaseRec {
+    let dir = tmproot.join("sst-zero");
+    let _ = std::fs::remove_dir_all(&dir);
+    std::fs::create_dir_all(dir.join("tmp")).unwrap();
+    let p = dir.join("doc.md");
+    std::fs::write(&p, "# t\n\n```scrut {skip_document_code: 0}\n$ false\n[1]\n```\n").unwrap();
+    let out = std::process::Command::new(scrut_bin()).arg("test").arg("-r").arg("json").arg("--cram-compat").arg(&p).current_dir(&dir).env("TMPDIR", dir.join("tmp")).output().expect("run scrut");
+    let code = out.status.code().unwrap_or(-1);
+    let stdout = String::from_utf8_lossy(&out.stdout).to_string();
+    let json: Option<serde_json::Value> = stdout.find('[').and_then(|p| serde_json::from_str(&stdout[p..]).ok());
+    let kind = json.as_ref().and_then(|j| j.pointer("/0/result/kind").and_then(|v| v.as_str()).map(|s| s.to_string())).unwrap_or("?".into());
+    let mut fails = vec![];
+    if kind != "success" {
+        fails.push(("C15:script-skip-code-zero".to_string(), format!("`{{skip_document_code: 0}}` / `$ false` / `[1]` under --cram-compat: reported {kind:?} (exit {code}) although no test case ended with 0")));
+    }
+    let _ = std::fs::remove_dir_all(&dir);
+    // the model agrees with the binary here (C15_script_skipped_cause_fails_on_witness): no model line of its own
+    CaseRec { op: "noop".into(), impl_out: "ok".into(), oracle_fail: keep(prop, fails), nontrivial: true, tags: vec!["e2e:script-skip-code-zero".into()] }
+}
+
 /// single-script execution: a test case ends with the skip code WITHOUT leaving the shell, a later one runs into the
 /// document's time limit. The document is skipped (as in per-process execution, where execution ends at the skip
 /// code); with another exit code in that place the timeout is reported.
-/// idx: skip / control (2) x Cram document / Markdown under --cram-compat (2)
+/// idx: skip / control (2) x Cram document / Markdown under --cram-compat (2) x the later test case sleeps into the
+/// limit / kills the shell (2); idx 8: the skip code 0 (open finding C15:script-skip-code-zero)
 fn script_skip_then_timeout_case(prop: &str, idx: u64, tmproot: &Path) -> CaseRec {
+    if idx == 8 {
+        return script_skip_code_zero_case(prop, tmproot);
+    }
     let skip = idx % 2 == 0;
     let compat = idx / 2 % 2 == 1;
+    let killed = idx / 4 % 2 == 1;
     let dir = tmproot.join(format!("sst-{idx}"));
     let _ = std::fs::remove_dir_all(&dir);
     std::fs::create_dir_all(dir.join("tmp")).unwrap();
     let first = if skip { "(exit 80)" } else { "(exit 3)" };
     let code_line = if skip { "" } else { "[3]\n" };
+    let slow = if killed { "kill -9 $$" } else { "sleep 3" };
     let (name, text) = if compat {
-        ("doc.md", format!("# first\n\n```scrut\n$ {first}\n{code_line}```\n\n# slow\n\n```scrut\n$ sleep 3; echo ok\nok\n```\n"))
+        ("doc.md", format!("# first\n\n```scrut\n$ {first}\n{code_line}```\n\n# slow\n\n```scrut\n$ {slow}; echo ok\nok\n```\n"))
     } else {
-        ("doc.t", format!("first\n  $ {first}\n{}\nslow\n  $ sleep 3; echo ok\n  ok\n", if skip { String::new() } else { "  [3]\n".to_string() }))
+        ("doc.t", format!("first\n  $ {first}\n{}\nslow\n  $ {slow}; echo ok\n  ok\n", if skip { String::new() } else { "  [3]\n".to_string() }))
     };
     let p = dir.join(name);
     std::fs::write(&p, text).unwrap();
@@ -1259,10 +1286,11 @@ fn script_skip_then_timeout_case(prop: &str, idx: u64, tmproot: &Path) -> CaseRe
     let stdout = String::from_utf8_lossy(&out.stdout).to_string();
     let json: Option<serde_json::Value> = stdout.find('[').and_then(|p| serde_json::from_str(&stdout[p..]).ok());
     let kinds: Vec<String> = (0..2).map(|i| json.as_ref().and_then(|j| j.pointer(&format!("/{i}/result/kind")).and_then(|v| v.as_str()).map(|s| s.to_string())).unwrap_or("?".into())).collect();
-    let (want, want_exit): (Vec<&str>, i32) = if skip { (vec!["skipped", "skipped"], 0) } else { (vec!["timeout", "skipped"], 50) };
+    // a killed shell without a skip code in front is an execution error: exit status 1, nothing reported
+    let (want, want_exit): (Vec<&str>, i32) = if skip { (vec!["skipped", "skipped"], 0) } else if killed { (vec!["?", "?"], 1) } else { (vec!["timeout", "skipped"], 50) };
     let mut fails = vec![];
     if kinds != want || code != want_exit {
-        let what = format!("single-script document [{first}; sleep 3] under --timeout-seconds 1{}: reported {:?} exit {code}, expected {:?} exit {want_exit}", if compat { " --cram-compat" } else { "" }, kinds, want);
+        let what = format!("single-script document [{first}; {slow}] under --timeout-seconds 1{}: reported {:?} exit {code}, expected {:?} exit {want_exit}", if compat { " --cram-compat" } else { "" }, kinds, want);
         fails.push(("C15:skip-e2e".to_string(), what.clone()));
         fails.push(("C14:timed-e2e".to_string(), what.clone()));
         fails.push(("C20:results-e2e".to_string(), what));
@@ -1271,10 +1299,11 @@ fn script_skip_then_timeout_case(prop: &str, idx: u64, tmproot: &Path) -> CaseRe
     let base = T { expected: None, stream: if compat { 'o' } else { 'c' }, skip: Some(80), timeout: None, acc_empty: true, status: St::Code(0), acc_out: true, acc_err: true, dur: None, wait: 0 };
     let t0 = if skip { T { status: St::Code(80), ..base.clone() } } else { T { expected: Some(3), status: St::Code(3), ..base.clone() } };
     // the model of a single-script document has no clock: the script as a whole ends with a status (`dur = 1` marks where)
-    let t1 = T { dur: Some(1), status: St::Timeout, acc_empty: false, ..base.clone() };
+    let t1 = T { dur: Some(1), status: if killed { St::Unknown } else { St::Timeout }, acc_empty: false, ..base.clone() };
+    let impl_out = if kinds.iter().all(|k| k == "?") { format!("ERR exit={code}") } else { format!("{} exit={}", kinds.iter().enumerate().map(|(i, k)| format!("{i}:{k}")).collect::<Vec<_>>().join(","), code) };
     CaseRec {
         op: format!("rundocs {} case=sst.{idx}", doc_field(true, Some(1000), &[t0, t1])),
-        impl_out: format!("{} exit={}", kinds.iter().enumerate().map(|(i, k)| format!("{i}:{k}")).collect::<Vec<_>>().join(","), code),
+        impl_out,
         oracle_fail: keep(prop, fails),
         nontrivial: true,
         tags: vec!["e2e:script-skip-then-timeout".into(), format!("e2e:sst-skip={skip}")],
@@ -1393,7 +1422,7 @@ pub fn run(ctx: &Ctx, prop: &str) {
     // 4b'. single-script execution: a skip code in front of a timeout skips the document (C15; also C14, C20)
     if prop == "C15" || prop == "C14" || ctx.thorough {
         let tr = tmproot.clone();
-        ctx.run_stream("e2e-script-skip-then-timeout-exhaustive", 4, true, |idx| Some(script_skip_then_timeout_case(prop, idx, &tr)));
+        ctx.run_stream("e2e-script-skip-then-timeout-exhaustive", 9, true, |idx| Some(script_skip_then_timeout_case(prop, idx, &tr)));
     }
     // 4c. a command that ends at once is not a timeout, however large its shell expression (C14)
     if prop == "C14" || ctx.thorough {
